@@ -32,7 +32,7 @@ REG = dict(category="exploration",
 
 def run(tier, seed):
     return generic.run_spec("C11", tier, seed, STEPS, RULE,
-                            required=["forks", "child_reinits", "fork_in_callback", "fork_in_oneshot_callback", "fork_at_top_level",
+                            required=["forks", "child_reinits", "dual_interest_fd_at_fork", "fork_in_callback", "fork_in_oneshot_callback", "fork_at_top_level",
                                       "forks_with_active_events", "child_cb_read", "child_cb_write", "child_cb_timer", "child_cb_signal",
                                       "parent_cb_read", "parent_cb_write", "parent_cb_timer", "parent_cb_signal",
                                       "child_vs_control_comparisons", "parent_vs_control_comparisons", "epoll_fdinfo_checks",
